@@ -1359,4 +1359,219 @@ theorem lowerIf_idem (f : Bool) (s : Bytes) : lowerIf f (lowerIf f s) = lowerIf 
   · rfl
   · simp [lowerIf, lowerAscii, lowerByte_idem]
 
+/-! ### separation up to ASCII case (`ignore_path_and_query_case = true`) -/
+
+/-- not an ASCII letter: lower-casing neither changes it nor produces it -/
+def NonLetter (c : Nat) : Prop := ¬(65 ≤ c ∧ c ≤ 90) ∧ ¬(97 ≤ c ∧ c ≤ 122)
+
+theorem lowerByte_eq_nonletter {b c : Nat} (hc : NonLetter c) : lowerByte b = c ↔ b = c := by
+  unfold NonLetter at hc
+  unfold lowerByte
+  split <;> constructor <;> intro h <;> omega
+
+theorem mem_lowerAscii_nonletter {c : Nat} (hc : NonLetter c) {s : Bytes} : c ∈ lowerAscii s ↔ c ∈ s := by
+  induction s with
+  | nil => simp [lowerAscii]
+  | cons b r ih =>
+    simp only [lowerAscii_cons, List.mem_cons, ih]
+    constructor
+    · rintro (h | h)
+      · exact Or.inl ((lowerByte_eq_nonletter hc).mp h.symm).symm
+      · exact Or.inr h
+    · rintro (h | h)
+      · exact Or.inl ((lowerByte_eq_nonletter hc).mpr h.symm).symm
+      · exact Or.inr h
+
+theorem splitAll_lowerAscii {c : Nat} (hc : NonLetter c) (s : Bytes) :
+    splitAll c (lowerAscii s) = (lowerAscii (splitAll c s).1, (splitAll c s).2.map lowerAscii) := by
+  induction s with
+  | nil => rfl
+  | cons b r ih =>
+    rw [lowerAscii_cons]
+    by_cases hb : b = c
+    · subst hb
+      have : lowerByte b = b := (lowerByte_eq_nonletter hc).mpr rfl
+      simp only [splitAll, this, beq_self_eq_true, if_true, ih, List.map_cons]
+      rfl
+    · have : lowerByte b ≠ c := fun e => hb ((lowerByte_eq_nonletter hc).mp e)
+      simp only [splitAll, beq_iff_eq, this, hb, if_false, ih, lowerAscii_cons]
+
+theorem pieces_lowerAscii {c : Nat} (hc : NonLetter c) (s : Bytes) :
+    pieces c (lowerAscii s) = (pieces c s).map lowerAscii := by
+  simp [pieces, splitAll_lowerAscii hc]
+
+theorem splitFirst_lowerAscii {c : Nat} (hc : NonLetter c) (s : Bytes) :
+    splitFirst c (lowerAscii s) = (lowerAscii (splitFirst c s).1, (splitFirst c s).2.map lowerAscii) := by
+  induction s with
+  | nil => rfl
+  | cons b r ih =>
+    rw [lowerAscii_cons]
+    by_cases hb : b = c
+    · subst hb
+      have : lowerByte b = b := (lowerByte_eq_nonletter hc).mpr rfl
+      simp only [splitFirst, this, beq_self_eq_true, if_true, Option.map_some]
+      rfl
+    · have : lowerByte b ≠ c := fun e => hb ((lowerByte_eq_nonletter hc).mp e)
+      simp only [splitFirst, beq_iff_eq, this, hb, if_false, ih, lowerAscii_cons]
+
+theorem nonLetter_37 : NonLetter 37 := by unfold NonLetter; omega
+theorem nonLetter_38 : NonLetter 38 := by unfold NonLetter; omega
+theorem nonLetter_61 : NonLetter 61 := by unfold NonLetter; omega
+theorem nonLetter_63 : NonLetter 63 := by unfold NonLetter; omega
+
+theorem hexVal_lower_hexDigitUpper : ∀ n, n < 16 → hexVal (lowerByte (hexDigitUpper n)) = some n := by decide
+
+/-- **decoding the LOWER-CASED rendering gives the lower-cased string** (no `%` in the string): the escapes `%C3` become
+`%c3`, which decode to the same byte; a byte that is escaped is no letter; letters are never escaped. -/
+theorem pctDecode_lower_pctEncode {S : List Nat} (hS : SafeSet S = true)
+    (hL : ∀ b, 65 ≤ b → b ≤ 90 → shouldEncode S b = false) :
+    ∀ (x : Bytes), IsBytes x → 37 ∉ x → pctDecode (lowerAscii (pctEncode S x)) = lowerAscii x := by
+  intro x
+  unfold pctDecode
+  induction x with
+  | nil => intro _ _; rfl
+  | cons b r ih =>
+    intro hb h37
+    have ih := ih hb.tail (fun e => h37 (List.mem_cons_of_mem _ e))
+    have hb37 : b ≠ 37 := fun e => h37 (by simp [e])
+    rw [pctEncode_cons, lowerAscii_append, lowerAscii_cons]
+    cases hbe : shouldEncode S b with
+    | true =>
+      have hnl : ¬(65 ≤ b ∧ b ≤ 90) := fun h => by rw [hL b h.1 h.2] at hbe; cases hbe
+      have hlb : lowerByte b = b := by unfold lowerByte; rw [if_neg hnl]
+      rw [encOne_of_true hbe, encByte_eq]
+      simp only [lowerAscii_cons, List.cons_append]
+      have h37' : lowerByte 37 = 37 := by decide
+      have hlt := hb.head
+      rw [h37', pctDecodeGo_zero_pct_some
+        (hexPair_cons2 _ (hexVal_lower_hexDigitUpper (b / 16 % 16) (by omega))
+          (hexVal_lower_hexDigitUpper (b % 16) (by omega)))]
+      simp only [pctDecodeGo_succ]
+      have : lowerAscii ([] : Bytes) = [] := rfl
+      rw [this, List.nil_append, ih, hlb]
+      congr 1
+      omega
+    | false =>
+      rw [encOne_of_false hbe]
+      have : lowerByte b ≠ 37 := fun e => hb37 ((lowerByte_eq_nonletter nonLetter_37).mp e)
+      simp only [lowerAscii_cons, List.cons_append]
+      have hn : lowerAscii ([] : Bytes) = [] := rfl
+      rw [hn, List.nil_append, pctDecodeGo_zero_ne _ this, ih]
+
+theorem upper_not_encoded_query : ∀ b, 65 ≤ b → b ≤ 90 → shouldEncode querySet b = false :=
+  fun b h1 h2 => letters_not_encoded_query b (by omega) h1 (Or.inl h2)
+
+/-- name / value of a rendered parameter read back WITHOUT the lossy UTF-8 step -/
+def rawPair (p : Bytes) : Bytes × Bytes :=
+  (pctDecode (splitFirst 61 p).1, pctDecode ((splitFirst 61 p).2.getD []))
+
+def lowerKV (kv : Bytes × Bytes) : Bytes × Bytes := (lowerAscii kv.1, lowerAscii kv.2)
+
+theorem rawPair_lower_reqParam {kv : Bytes × Bytes} (h : Plain kv) :
+    rawPair (lowerAscii (reqParam kv)) = lowerKV kv := by
+  obtain ⟨k, v⟩ := kv
+  have h61 : 61 ∉ lowerAscii (pctEncode querySet k) := fun e =>
+    not_mem_pctEncode_of_not_mem isDelim_61 h.k61 ((mem_lowerAscii_nonletter nonLetter_61).mp e)
+  have hk := pctDecode_lower_pctEncode safe_querySet upper_not_encoded_query k h.bk h.k37
+  have hv := pctDecode_lower_pctEncode safe_querySet upper_not_encoded_query v h.bv h.v37
+  unfold rawPair reqParam lowerKV
+  simp only
+  rw [lowerAscii_append, splitFirst_append_of_not_mem 61 _ _ h61]
+  cases v with
+  | nil =>
+    have hn : lowerAscii ([] : Bytes) = [] := rfl
+    simp only [List.isEmpty_nil, Bool.not_true, Bool.false_eq_true, if_false, hn, splitFirst, List.append_nil,
+      Option.getD_none, hk]
+    rfl
+  | cons b r =>
+    have h61' : lowerByte 61 = 61 := by decide
+    simp only [List.isEmpty_cons, Bool.not_false, if_true, lowerAscii_cons, h61', splitFirst, beq_self_eq_true,
+      List.append_nil, Option.getD_some, hk]
+    rw [hv]
+    rfl
+
+theorem lowerAscii_amp (ps : List Bytes) : lowerAscii (amp ps) = amp (ps.map lowerAscii) := by
+  cases ps with
+  | nil => rfl
+  | cons p rest =>
+    simp only [amp, lowerAscii_append, List.map_cons]
+    congr 1
+    induction rest with
+    | nil => rfl
+    | cons q qs ih =>
+      simp only [List.flatMap_cons, lowerAscii_append, lowerAscii_cons, List.map_cons, ih]
+      rfl
+
+/-- the lower-cased rendering of a list of plain parameters determines the list up to ASCII case -/
+theorem lower_joinParams_inj {m m' : Map} (hm : ∀ kv ∈ m, Plain kv) (hm' : ∀ kv ∈ m', Plain kv)
+    (h : lowerAscii (joinParams (m.map reqParam)) = lowerAscii (joinParams (m'.map reqParam))) :
+    m.map lowerKV = m'.map lowerKV := by
+  have hne : ∀ (m : Map), (∀ kv ∈ m, Plain kv) → ∀ p ∈ m.map reqParam, p ≠ [] := by
+    intro m hm p hp
+    obtain ⟨kv, hkv, rfl⟩ := List.mem_map.mp hp
+    intro e; exact (hm kv hkv).ne (reqParam_eq_nil.mp e)
+  have hne2 : ∀ (m : Map), (∀ kv ∈ m, Plain kv) → ∀ p ∈ (m.map reqParam).map lowerAscii, p ≠ [] := by
+    intro m hm p hp
+    obtain ⟨q, hq, rfl⟩ := List.mem_map.mp hp
+    intro e
+    have : q = [] := by cases q with
+      | nil => rfl
+      | cons _ _ => simp [lowerAscii] at e
+    exact hne m hm q hq this
+  have h38 : ∀ (m : Map), (∀ kv ∈ m, Plain kv) → ∀ p ∈ (m.map reqParam).map lowerAscii, 38 ∉ p := by
+    intro m hm p hp
+    obtain ⟨q, hq, rfl⟩ := List.mem_map.mp hp
+    obtain ⟨kv, hkv, rfl⟩ := List.mem_map.mp hq
+    exact fun e => not_mem_reqParam_38 (hm kv hkv) ((mem_lowerAscii_nonletter nonLetter_38).mp e)
+  have hback : ∀ (m : Map), (∀ kv ∈ m, Plain kv) → ((m.map reqParam).map lowerAscii).map rawPair = m.map lowerKV := by
+    intro m hm
+    rw [List.map_map, List.map_map]
+    exact List.map_congr_left fun kv hkv => rawPair_lower_reqParam (hm kv hkv)
+  rw [joinParams_eq_amp (hne m hm), joinParams_eq_amp (hne m' hm'), lowerAscii_amp, lowerAscii_amp] at h
+  by_cases he : m = []
+  · subst he
+    have : amp ((m'.map reqParam).map lowerAscii) = [] := by simpa [amp] using h.symm
+    have := (amp_eq_nil (hne2 m' hm')).mp this
+    have : m' = [] := by simpa using this
+    subst this; rfl
+  · by_cases he' : m' = []
+    · subst he'
+      have : amp ((m.map reqParam).map lowerAscii) = [] := by simpa [amp] using h
+      have := (amp_eq_nil (hne2 m hm)).mp this
+      exact absurd (by simpa using this) he
+    · have := congrArg (pieces 38) h
+      rw [pieces_amp (by simpa using he) (h38 m hm), pieces_amp (by simpa using he') (h38 m' hm')] at this
+      rw [← hback m hm, ← hback m' hm', this]
+
+/-- **equal lower-cased keys force equal paths and equal kept parameters, up to ASCII case** -/
+theorem lower_npq_inj (cfg : Cfg) {path path' : Bytes} {m m' : Map} (hp : 63 ∉ path) (hp' : 63 ∉ path')
+    (hm : ∀ kv ∈ m.filter (notMarketing cfg), Plain kv) (hm' : ∀ kv ∈ m'.filter (notMarketing cfg), Plain kv)
+    (h : lowerAscii (npq cfg path m) = lowerAscii (npq cfg path' m')) :
+    lowerAscii path = lowerAscii path' ∧
+    (m.filter (notMarketing cfg)).map lowerKV = (m'.filter (notMarketing cfg)).map lowerKV := by
+  have hs : ∀ (path : Bytes) (m : Map), 63 ∉ path →
+      splitFirst 63 (lowerAscii (npq cfg path m)) =
+        (lowerAscii path, if !(keptOf cfg m).isEmpty then some (lowerAscii (keptOf cfg m)) else none) := by
+    intro path m hp
+    have hp2 : 63 ∉ lowerAscii path := fun e => hp ((mem_lowerAscii_nonletter nonLetter_63).mp e)
+    unfold npq
+    cases (keptOf cfg m).isEmpty with
+    | true => simp [splitFirst_of_not_mem hp2]
+    | false =>
+      simp only [Bool.not_false, if_true, lowerAscii_append, lowerAscii_cons]
+      have : lowerByte 63 = 63 := by decide
+      rw [this, splitFirst_append_of_not_mem 63 _ _ hp2]; simp [splitFirst]
+  have h1 := hs path m hp
+  rw [h, hs path' m' hp'] at h1
+  simp only [Prod.mk.injEq] at h1
+  refine ⟨h1.1.symm, ?_⟩
+  have hk : lowerAscii (keptOf cfg m) = lowerAscii (keptOf cfg m') := by
+    have h2 := h1.2
+    cases e1 : (keptOf cfg m).isEmpty <;> cases e2 : (keptOf cfg m').isEmpty <;> simp [e1, e2] at h2
+    · exact h2.symm
+    · rw [List.isEmpty_iff.mp e1, List.isEmpty_iff.mp e2]
+  unfold keptOf at hk
+  exact lower_joinParams_inj hm hm' hk
+
+
 end Rio.Url
